@@ -90,7 +90,11 @@ class WavPackInfo(StreamInfo):
 
         self.version = header.version
         self.channels = bool(header.flags & 4) or 2
-        self.sample_rate = RATES[(header.flags >> 23) & 0xF]
+        try:
+            self.sample_rate = RATES[(header.flags >> 23) & 0xF]
+        except IndexError:
+            # index 15: a non-standard rate stored in the metadata sub-blocks
+            raise WavPackHeaderError("unsupported sample rate")
         self.bits_per_sample = ((header.flags & 3) + 1) * 8
 
         # most common multiplier (DSD64)
